@@ -49,6 +49,17 @@ Proof.
 Qed.
 Print Assumptions C24_exp_curve.
 
+(* the reconnection handler makes exactly as many attempts as the schedule has delays (while attempts keep failing),
+   waiting exactly the scheduled delays in order -- a zero delay is a delay, not the end of the schedule *)
+Theorem C24_handler_uses_whole_schedule : forall d0 r k,
+  handler (d0 :: r) (repeat AFail k) = Some (firstn (S k) (d0 :: r)) /\
+  (length r <= k -> handler (d0 :: r) (repeat AFail k) = Some (d0 :: r))%nat.
+Proof.
+  intros d0 r k. split; [apply handler_all_fail|]. intros H. rewrite handler_all_fail.
+  f_equal. apply firstn_all2. cbn [length]. apply le_n_S. exact H.
+Qed.
+Print Assumptions C24_handler_uses_whole_schedule.
+
 Example C24_nonvacuous :
   exp_schedule (1 # 2) (10 # 1) (Some 3%nat) (fun _ => 100%Z) 2%nat = Some (exp_item (1#2) (10#1) (fun _ => 100%Z) 2%nat) /\
   Qeq_bool (exp_item (1 # 2) (10 # 1) (fun _ => 100%Z) 2%nat) (2 # 1) = true /\
